@@ -742,6 +742,10 @@ class C16(Prop):
       '`x += 1` into read and write',
       'the baton scheduler explores preemption at line/call-event granularity inside the anchor files only; '
       'per-opcode preemption is not explored (f_trace_opcodes unreliable on this build)',
+      'one-line accessors of the anchor files (is_active, get_latest_trial, next_trial_id, dna_spec, ...; checked '
+      'to be a single return statement) are executed atomically with the statement that calls them',
+      'T-LOCK is cross-checked at run time: every lock it reports as lexically enclosing a site must be held by '
+      'the thread when the site executes',
       'modelled, not verified: the bookkeeping of local_backend.py and the counters of dna_generator.py '
       '(tied by T-LOCK extraction + trace validation of real scheduled runs against `exec cfgNow`); the '
       'algorithm is abstracted to its counters and the log of fed-back trials (Evolution population logic, '
